@@ -57,3 +57,44 @@ CONTRACTS = [
 
 EXTRA_CONTRACTS = _v.CONTRACTS
 LEMMAS = _v.LEMMAS + LEMMAS
+
+
+# ---- sampled inputs for the run-time reading of the same contracts (bounded stand-in / CPython cross-check) ----
+_POOL = {
+    "int32": [0, 1, -1, 127, 128, 2**31 - 1, -2**31, 300, -300], "sint32": [0, 1, -1, 63, 64, -64, -65, 2**31 - 1, -2**31],
+    "enum": [0, 1, -1, 7, 2**31 - 1, -2**31], "sfixed32": [0, 1, -1, 2**31 - 1, -2**31],
+    "int64": [0, 1, -1, 2**31, -2**31 - 1, 2**53 + 1, 2**63 - 1, -2**63], "sint64": [0, 1, -1, 2**31, -2**31 - 1, 2**32, -2**32, 2**62, 2**63 - 1, -2**63],
+    "sfixed64": [0, 1, -1, 2**63 - 1, -2**63], "uint32": [0, 1, 2**32 - 1, 2**31], "fixed32": [0, 1, 2**32 - 1],
+    "uint64": [0, 1, 2**64 - 1, 2**63, 2**32], "fixed64": [0, 1, 2**64 - 1, 2**63],
+    "bool": [True, False], "float": [0.0, -0.0, 1.5, float("inf"), float("-inf"), float("nan"), 3.4028234663852886e38],
+    "double": [0.0, -0.0, 1.5, float("inf"), float("nan"), 1e308, 5e-324],
+    "string": ["", "a", "\u00e9", "\U0001F600", "\x00"], "bytes": [b"", b"\x00", b"\xff\x00abc"],
+}
+
+
+def _single_samples(with_number):
+    def gen(rnd, n):
+        out = []
+        for t, vals in _POOL.items():
+            for v in vals:
+                a = {"proto_type": t, "wraps": "", "value": v}
+                if with_number:
+                    for fn in (1, 15, 16, 2047, 2048, 2**29 - 1):
+                        for se in (False, True):
+                            out.append(dict(a, field_number=fn, serialize_empty=se))
+                else:
+                    out.append(a)
+        # out-of-range / wrong type: must be filtered by the precondition
+        out.append(dict(out[0], value="x"))
+        rnd.shuffle(out)
+        return out[: max(n, 200)]
+    return gen
+
+
+SAMPLES = {
+    "betterproto._preprocess_single": _single_samples(False),
+    "betterproto._len_preprocessed_single": _single_samples(False),
+    "betterproto._serialize_single": _single_samples(True),
+    "betterproto._len_single": _single_samples(True),
+    "betterproto._pack_fmt": lambda rnd, n: [{"proto_type": t} for t in ("double", "float", "fixed32", "fixed64", "sfixed32", "sfixed64", "int32")],
+}
